@@ -1,0 +1,11 @@
+//go:build verif
+
+// Contracts for the verifier in /verif (govc). Comment-only: no declarations.
+
+package client
+
+// C04: the user's --secure reaches the upstream list unchanged: whatever else is configured (certificate
+// verification switched off with --insecure included), every upstream attempt is made with mustSecure = Secure
+//@ func (s *Command) Startup
+//@   property C04
+//@   callsite Start#1 () require s.Upstream.MustSecure == s.Secure                                  :the_upstreams_carry_the_users_security_requirement
